@@ -4,6 +4,7 @@ import (
 	"context"
 	"encoding/binary"
 	"errors"
+	"math"
 	"sync"
 	"time"
 
@@ -342,9 +343,10 @@ func (s *TreeScheduler) work(ctx context.Context, ch chan Item) {
 func (s *TreeScheduler) Schedule(sch Schedulable) error {
 	s.sm.schedule(sch.ID())
 	it := Item{
-		cron:   sch.Schedule(),
-		id:     sch.ID(),
-		Offset: int64(sch.Offset().Seconds()),
+		cron: sch.Schedule(),
+		id:   sch.ID(),
+		// whole seconds, never before the offset has passed
+		Offset: int64(math.Ceil(sch.Offset().Seconds())),
 		//last:   sch.LastScheduled().Unix(),
 	}
 	nt, err := it.cron.Next(sch.LastScheduled())
